@@ -877,9 +877,13 @@ async fn fail_all_pending(inner: &std::sync::Weak<WebSocketClientInner>, err: Re
     // socket already known to be dead, which on a half-open connection (or
     // behind another task mid-flush) can stall for TCP-retransmit durations.
     // The subscriber should not wait on it to learn the connection is gone.
+    #[cfg(feature = "verif-hooks")]
+    crate::verif::probe_async("cm_fail_start").await;
     take_notify_sender(&inner_ref);
 
     let _ = close_writer(&inner_ref).await;
+    #[cfg(feature = "verif-hooks")]
+    crate::verif::probe_async("cm_fail_mid").await;
 
     let waiters = {
         let mut pending = lock_pending_map(&inner_ref.pending);
